@@ -52,6 +52,8 @@ pub fn literal_for(p: &Val) -> Option<String> {
     }
 }
 
+const SWEEP_FORMS: [&str; 14] = ["@", "(@)", "+@", "1/@", "@*@", "@-@", "-@", "0-@", "abs(@)", "sqrt(@)", "@^2", "min(@,1)", "@/@", "1+@*2"];
+
 pub fn profile(ev: Ev) -> Profile {
     let mut p = Profile::full(ev);
     p.max_depth = 4;
@@ -75,17 +77,24 @@ impl Prop for C14Prop {
         "C14"
     }
     fn rule(&self) -> String {
-        "Cases are (evaluator, expression E with 0..n occurrences of @, placeholder p from the boundary pool incl. NaN payloads, +-inf, -0.0, i64 extremes, Decimal values of distinct scales, Integer vs Float). Sub-checks: identity (@, (@), +@ return p identically: to_bits incl. NaN payload / variant / value+scale+sign) for every pool value (exhaustive); substitution (E evaluated with p equals E with every @ replaced by a bracketed literal expression that was first verified to evaluate to exactly p, evaluated with an unrelated placeholder); independence (E without @ gives the same outcome for every placeholder); reference evaluation with @ bound (exact sub-languages). non-trivial = >=1 @ under >=1 operator and a placeholder different from the type's default; distinct by (evaluator,E,p).".into()
+        "Cases are (evaluator, expression E with 0..n occurrences of @, placeholder p from the boundary pool incl. NaN payloads, +-inf, -0.0, i64 extremes, Decimal values of distinct scales, Integer vs Float). Sub-checks: sweep (a fixed list of 14 forms, each evaluated consecutively on one thread with every pool placeholder in both orders, every answer compared with the literal-substituted form); identity (@, (@), +@ return p identically: to_bits incl. NaN payload / variant / value+scale+sign) for every pool value (exhaustive); substitution (E evaluated with p equals E with every @ replaced by a bracketed literal expression that was first verified to evaluate to exactly p, evaluated with an unrelated placeholder); independence (E without @ gives the same outcome for every placeholder); reference evaluation with @ bound (exact sub-languages). non-trivial = >=1 @ under >=1 operator and a placeholder different from the type's default; distinct by (evaluator,E,p).".into()
     }
     fn subs(&self, tier: Tier) -> Vec<Sub> {
         let ident: u64 = Ev::ALL.iter().map(|ev| ph_pool(*ev).len() as u64 * 4).sum();
+        let sweep: u64 = 5 * SWEEP_FORMS.len() as u64;
         vec![
             Sub { name: "identity", kind: SubKind::Enum { count: ident } },
+            Sub { name: "sweep", kind: SubKind::Enum { count: sweep } },
             Sub { name: "substitution", kind: SubKind::Random { cases: tier.pick(500_000, 20_000_000), len: 160 } },
             Sub { name: "independence", kind: SubKind::Random { cases: tier.pick(100_000, 5_000_000), len: 160 } },
         ]
     }
-    fn gen_enum(&self, _sub: &str, mut idx: u64, _tier: Tier) -> Option<Case> {
+    fn gen_enum(&self, sub: &str, mut idx: u64, _tier: Tier) -> Option<Case> {
+        if sub == "sweep" {
+            let ev = Ev::ALL[(idx % 5) as usize];
+            let form = SWEEP_FORMS[(idx / 5) as usize % SWEEP_FORMS.len()];
+            return Some(Case::new(ev, form.to_string(), Val::default_for(ev)));
+        }
         for ev in Ev::ALL {
             let pool = ph_pool(ev);
             let n = pool.len() as u64 * 4;
@@ -118,6 +127,49 @@ impl Prop for C14Prop {
     fn check(&self, sub: &str, case: &Case, sc: &mut ShardCtx) -> Result<(), Failure> {
         let ev = case.ev;
         match sub {
+            "sweep" => {
+                // the same expression evaluated consecutively (same thread) with every placeholder of the pool, in
+                // both orders: each answer must be the one a fresh evaluation with that placeholder gives
+                if accept(ev, &case.input).is_none() {
+                    return Ok(());
+                }
+                let pool = ph_pool(ev);
+                let order: Vec<usize> = (0..pool.len()).chain((0..pool.len()).rev()).collect();
+                for i in order {
+                    let p = &pool[i];
+                    let got = match eval_normal(sc, ev, &case.input, p) {
+                        Some(o) => o,
+                        None => continue,
+                    };
+                    // reference: the same text with @ replaced by a verified literal, under an unrelated placeholder
+                    let want = if case.input == "@" || case.input == "(@)" || case.input == "+@" {
+                        Some(Outcome::Ok(p.clone()))
+                    } else {
+                        match literal_for(p) {
+                            Some(l) if matches!(api::eval(ev, &l, &unrelated(ev)), Outcome::Ok(ref v) if v.identical(p)) => eval_normal(sc, ev, &case.input.replace('@', &l), &unrelated(ev)),
+                            _ => None,
+                        }
+                    };
+                    if let Some(w) = want {
+                        let same = match (&got, &w) {
+                            (Outcome::Ok(a), Outcome::Ok(b)) => {
+                                if case.input == "@" || case.input == "(@)" || case.input == "+@" {
+                                    a.identical(b)
+                                } else {
+                                    a.same(b)
+                                }
+                            }
+                            (a, b) => a.same(b),
+                        };
+                        if !same {
+                            return Err(Failure::new(format!("{}/sweep", ev.name()), format!("{} (placeholder {})", w.show(), p.show()), format!("{} after evaluating the same expression with other placeholders", got.show())).with_case(Case::new(ev, case.input.clone(), p.clone())));
+                        }
+                    }
+                }
+                sc.class("sweep over the placeholder pool");
+                sc.nontrivial(case.hash(), || sample(case, "all placeholders consistent"));
+                Ok(())
+            }
             "identity" => {
                 let o = match eval_normal(sc, ev, &case.input, &case.ph) {
                     Some(o) => o,
